@@ -152,9 +152,10 @@ def _run(ctx, replay):
                 nonlocal sym
                 if sym is None: sym = sl.symbol_at(exe)
                 where = sorted(set(sym(int(l.split()[1], 16)).split('+')[0] for l in diff))
-                if insertion and where and all(w in ('Crystal_arr', '__Crystal_arr') for w in where):
-                    stats['insertion_changed'] = where
-                else:
+                crystal = [w for w in where if w in ('Crystal_arr', '__Crystal_arr')]
+                if insertion and crystal: stats['insertion_changed'] = crystal
+                if insertion: where = [w for w in where if w not in crystal]
+                if where or not insertion:
                     findings.append(dict(kind='tables', what='library data changed by the history: %s (%s)' % (where, ' '.join(nd)), ops=ops, env=env, label=label, where=where))
         else:
             rep['tie_broken'].append('%s: expected two state lines, got %r' % (label, h['states']))
